@@ -36,7 +36,11 @@ def run(tier):
         vn, cn, ln, on = (HOSTILE[0][:nv], HOSTILE[1][:nalg], HOSTILE[2][:nlog], HOSTILE[3][:nobj]) if hostile else c19.nameset(a["nameset"], nv, nalg, nlog, nobj)
         files = {}
         if a["files"] != "absent":
-            files = {".col": "".join(n + "\n" for n in vn), ".row": "".join(n + "\n" for n in cn + ln + on)}
+            files = {}
+            if a["files"] != "rowonly":
+                files[".col"] = "".join(n + "\n" for n in vn)
+            if a["files"] != "colonly":
+                files[".row"] = "".join(n + "\n" for n in cn + ln + on)
         opts = {"native": [], "slack": [acc["LinConRange"]["opt"] + "=0"], "linear": list(linear_opts)}[a["rmode"]]
         opts += ["cvt:names=%d" % a["mode"], "cvt:writegraph=graph.jsonl"]
         cases.append({"id": len(cases), "model": m, "opts": opts, "answer": "status 0 ok\n", "files": files,
